@@ -155,6 +155,8 @@ def tsame(a, b):
         return False
     if isinstance(a, float):
         return (math.isnan(a) and math.isnan(b)) or (a == b and math.copysign(1, a) == math.copysign(1, b))
+    if isinstance(a, Decimal):
+        return a.as_tuple() == b.as_tuple()      # Decimal('2.50') is not Decimal('2.5')
     if isinstance(a, (tuple, list)):
         return len(a) == len(b) and all(tsame(x, y) for x, y in zip(a, b))
     if isinstance(a, dict):
@@ -592,6 +594,60 @@ def leg_d(shard, report):
 
 
 # ------------------------------------------------------------------------------------------------------------
+# leg P: two defaulted fields whose defaults are EQUAL but distinct objects (several constants of one generated loader)
+
+EQUAL_GROUPS = [
+    [("Decimal('1')", Decimal("1")), ("Fraction(1)", Fraction(1)), ("IE.ONE", IE.ONE), ("Decimal('1.0')", Decimal("1.0")), ("1+0j", 1 + 0j),
+     ("1", 1), ("True", True), ("1.0", 1.0), ("IntSub(1)", IntSub(1))],
+    [("Decimal('2.50')", Decimal("2.50")), ("Decimal('2.5')", Decimal("2.5")), ("Fraction(5, 2)", Fraction(5, 2)), ("2.5", 2.5),
+     ("FloatSub(2.5)", FloatSub(2.5))],
+    [("(Decimal('1'),)", (Decimal("1"),)), ("(Fraction(1),)", (Fraction(1),)), ("(1,)", (1,)), ("TupSub((1,))", TupSub((1,)))],
+    [("frozenset({Decimal(0)})", frozenset({Decimal(0)})), ("frozenset({Fraction(0)})", frozenset({Fraction(0)})),
+     ("FrozenSub({0})", FrozenSub({0}))],
+]
+
+
+def leg_p(items, report):
+    for kind, gi, i, j in items:
+        (n1, d1), (n2, d2) = EQUAL_GROUPS[gi][i], EQUAL_GROUPS[gi][j]
+        try:
+            if kind == "dataclass":
+                cls = dataclasses.make_dataclass("PM", [("a", int), ("b", Any, dataclasses.field(default=d1)),
+                                                        ("c", Any, dataclasses.field(default=d2))])
+            elif kind == "attrs":
+                import attr
+                cls = attr.make_class("PA", {"a": attr.ib(type=int), "b": attr.ib(type=Any, default=d1), "c": attr.ib(type=Any, default=d2)})
+            else:
+                cls = NamedTuple("PN", [("a", int), ("b", Any), ("c", Any)])
+                cls.__new__.__defaults__ = (d1, d2)
+                cls._field_defaults = {"b": d1, "c": d2}
+            own = cls(1) if kind == "namedtuple" else cls(a=1)
+        except Exception:  # noqa: BLE001
+            report.skip("the model kind itself refuses this pair of defaults")
+            continue
+        case = {"leg": "P", "kind": kind, "group": gi, "pair": [i, j]}
+        for mode, ld in loaders_for(cls).items():
+            if isinstance(ld, Exception):
+                report.violation({"check": "C08.default", "problem": "creation_failed", "exc": type(ld).__name__},
+                                 f"{kind} with b = {n1}, c = {n2}: loader creation failed {type(ld).__name__}", case)
+                break
+            for data in ({"a": 1}, {"a": 1, "b": "given"}, {"a": 1, "c": "given"}):
+                report.case(("P", kind, gi, i, j, mode, tuple(data)), nontrivial=True, sample={**case, "mode": mode_name(mode), "input": data})
+                try:
+                    got = attrs_of(ld(dict(data)), ["a", "b", "c"])
+                except Exception as e:  # noqa: BLE001
+                    report.violation({"check": "C08.default", "problem": "load_failed", "exc": type(e).__name__},
+                                     f"{kind} with b = {n1}, c = {n2} [{mode_name(mode)}] <- {data}: {type(e).__name__}", case)
+                    continue
+                want = {**attrs_of(own, ["a", "b", "c"]), **data}
+                report.outcome("default_ok" if tsame(got, want) else "default_wrong")
+                if not tsame(got, want):
+                    report.violation({"check": "C08.default", "problem": "lookalike_default", "site": "two_equal_defaults"},
+                                     f"{kind} with b = {n1}, c = {n2}: loading {data} [{mode_name(mode)}] gives "
+                                     f"{codec.show(got, 90)} but the model itself holds {codec.show(want, 90)}", case)
+
+
+# ------------------------------------------------------------------------------------------------------------
 # leg R: loaders that are re-entered while they run (self-referential models) and have fields that are simply NOT PASSED when
 # absent (non-required TypedDict keys, **kwargs: Unpack[TypedDict]): per-call state of the generated loader must be per call
 
@@ -684,7 +740,7 @@ def leg_r(items, report):
 def shard_fn(args):
     leg, items = args
     report = Report()
-    {"A": leg_a, "B": leg_b, "C": leg_c, "D": leg_d, "R": leg_r}[leg](items, report)
+    {"A": leg_a, "B": leg_b, "C": leg_c, "D": leg_d, "R": leg_r, "P": leg_p}[leg](items, report)
     return report
 
 
@@ -699,6 +755,9 @@ def run(tier):
     shards += [("C", c_items[i::6]) for i in range(6)]
     shards += [("D", [d]) for d, _, _ in attrs_layouts() + other_layouts()]
     shards += [("R", [None])]
+    p_items = [(k, gi, i, j) for k in ("dataclass", "attrs", "namedtuple") for gi, g in enumerate(EQUAL_GROUPS)
+               for i in range(len(g)) for j in range(len(g)) if i != j]
+    shards += [("P", p_items[i::8]) for i in range(8)]
     report.count("signatures", len(sigs))
     parallel.run_shards(shard_fn, shards, report=report)
     return report
@@ -726,6 +785,8 @@ def replay(case):
         leg_c([(case["kind"], case["factory"])], report)
     elif leg == "R":
         leg_r([None], report)
+    elif leg == "P":
+        leg_p([(case["kind"], case["group"], *case["pair"])], report)
     else:
         leg_d([case["layout"]], report)
     for v in report.violations.values():
